@@ -64,7 +64,12 @@ def expand(op, results):
 
 def run(ctx):
     ctx.proofs()
+    ok, log = ctx.coq_make(["C05/Check.vo"])          # the correspondence definitions are not under Properties.v
+    if not ok:
+        ctx.broken("coq-build:C05/Check.vo", log[-2000:])
+    ctx.log("proofs audited")
     hx = ctx.go_build("c05", race=True)
+    ctx.log("race build ready")
     recs = ctx.jsonl([hx, "-seed", str(ctx.seed), "-tier", ctx.tier], timeout=870)
     rounds = [r for r in recs if r["kind"] == "round"]
     children = [r for r in recs if r["kind"] == "child"]
@@ -128,24 +133,99 @@ def run(ctx):
         expected = clist([clist([x[1] for x in ops]) for ops in per_thread])
         cases.append("(%d, %s, %s)" % (gi, clist(sched), expected))
         refs.append(r)
-    bad_model, bad_fp = [], []
-    nev = 0
-    if cases:
-        header = HEADER + "Definition graphs : list graph := [\n" + ";\n".join(gterms) + "].\n" + """
+    nev = sum(c.count("(O") + c.count("OIterNext") + c.count("OIterDone") for c in cases)
+    # ---- deterministic write footprints (hooks) against the model and against "frozen objects are never written"
+    fps = [r for r in recs if r["kind"] == "fp"]
+    FIELD = ["FFrozen", "FIter", "FElems"]
+    fp_steps = sum(r["steps"] for r in fps)
+    fp_writes = 0
+    for r in fps:
+        if r.get("position"):
+            ctx.finding("line-table:" + r["position"].split(": ", 1)[-1], "footprints round %d: %s" % (r["round"], r["position"]), {"module": r["src"], "seed": r["seed"], "round": r["round"]})
+        for q in r["seqs"]:
+            for st in q["steps"]:
+                for w in st["writes"]:
+                    fp_writes += 1
+                    if w["frozen"]:
+                        kind = r["desc"]["nodes"][w["node"]]["kind"]
+                        ctx.finding("frozen-object-written:%s:%s:%s" % (st["op"], kind, FIELD[w["field"]]),
+                                    "operation %s wrote the %s of %s node %d although its frozen flag was set (round %d)" % (st["op"], FIELD[w["field"]], kind, w["node"], r["round"]),
+                                    {"module": r["src"], "seed": r["seed"], "round": r["round"], "sequence": q["steps"],
+                                     "how": "c05 child -scenario footprints -seed %d -rounds %d (state read through starlark.VerifFrozen / VerifIterCount)" % (r["seed"], r["round"] + 1)})
+    fplimit = 12 if ctx.quick() else 250
+
+    def fop(st):
+        o, n = st["op"], st["node"]
+        if o == "len":
+            return "(OLen %d)" % n
+        if o == "contains":
+            return "(OContains %d %s)" % (n, cz(st.get("a", 0)))
+        if o == "index":
+            return "(OIndex %d %d)" % (n, st.get("i", 0))
+        if o == "begin":
+            return "(OIterBegin %d)" % n
+        if o == "next":
+            return "OIterNext"
+        if o == "done":
+            return "OIterDone"
+        if o == "compare":
+            return "(OCompare %d %d)" % (n, st.get("b", 0))
+        if o == "hash":
+            return "(OHash %d)" % n
+        if o == "print":
+            return "(OPrint %d)" % n
+        if o == "call":
+            return "(OCall %d)" % n
+        if o == "store":
+            return "(OStoreFreeze %d)" % n
+        if o == "mutate":
+            return "(OMutate %d %s)" % (n, c04.cop(st["m"]))
+        raise ValueError(o)
+
+    fgterms, fcases, frefs = [], [], []
+    for gi, r in enumerate(fps[:fplimit]):
+        t, _, _ = c04.render_graph({"desc": r["desc"]})
+        fgterms.append(t)
+        for q in r["seqs"]:
+            ops = clist([fop(st) for st in q["steps"]])
+            obs = clist([clist(["(LObj %d %s)" % (w["node"], FIELD[w["field"]]) for w in st["writes"]]) for st in q["steps"]])
+            fcases.append("(%d, (%s, %s))" % (gi, ops, obs))
+            frefs.append((r, q))
+    if not fps:
+        ctx.broken("harness:C05 footprints", "the footprints scenario did not run")
+    # one Coq run for both kinds of cases: inl = interleaved scripts, inr = write footprints
+    bad_model, bad_fp, bad_w = [], [], []
+    allcases = ["(inl %s)" % c for c in cases] + ["(inr (%d, %s))" % (len(gterms) + int(c[1:].split(",", 1)[0]), c.split(",", 1)[1][:-1].strip()) for c in fcases]
+    if allcases:
+        header = HEADER + "Definition graphs : list graph := [\n" + ";\n".join(gterms + fgterms) + "].\n" + """
+Definition fheaps := Eval vm_compute in map frozen_heap graphs.
 Definition worlds := Eval vm_compute in map world_of graphs.
-Definition m_ok (c : nat * list (nat * op) * list (list result)) : bool :=
-  match c with (gi, sched, expected) => model_ok (nth gi worlds None) sched expected end.
-Definition f_ok (c : nat * list (nat * op) * list (list result)) : bool :=
-  match c with (gi, sched, _) => footprint_ok (nth gi worlds None) sched end.
+Definition case := ((nat * list (nat * op) * list (list result)) + (nat * (list op * list (list location))))%type.
+Definition m_ok (c : case) : bool :=
+  match c with
+  | inl (gi, sched, expected) => model_ok (nth gi worlds None) sched expected
+  | inr (gi, (ops, obs)) => writes_ok (nth gi fheaps None) ops obs
+  end.
+Definition f_ok (c : case) : bool :=
+  match c with
+  | inl (gi, sched, _) => footprint_ok (nth gi worlds None) sched
+  | inr _ => true
+  end.
 """
-        bad_model, bad_fp = coq_mismatches(ctx, "c05_cases", header, cases, ["m_ok", "f_ok"], shard=100000, timeout=800)
-        nev = sum(c.count("(O") + c.count("OIterNext") + c.count("OIterDone") for c in cases)
+        bm, bf = coq_mismatches(ctx, "c05_cases", header, allcases, ["m_ok", "f_ok"], shard=100000, timeout=800)
+        bad_model = [i for i in bm if i < len(cases)]
+        bad_w = [i - len(cases) for i in bm if i >= len(cases)]
+        bad_fp = [i for i in bf if i < len(cases)]
         for i in bad_fp:
             r = refs[i]
             ctx.broken("correspondence:C05.Model footprints", "the model predicts a write or a conflict for a script over frozen values (round %d, N=%d): theorem frozen_ops_write_nothing would be contradicted" % (r["round"], r["n"]))
         for i in bad_model:
             r = refs[i]
             ctx.broken("correspondence:C05.Model", "model transcripts differ from the implementation's for scenario values N=%d seed %d round %d (module: %s)" % (r["n"], r["seed"], r["round"], (r.get("src") or "")[-400:]))
+        for i in bad_w[:3]:
+            r, q = frefs[i]
+            ctx.broken("correspondence:C05.Model write footprints", "round %d: the writes observed through the hooks differ from the model's for the sequence %s" % (r["round"], q["steps"]))
+    ctx.log("footprints: %d steps in %d rounds, %d observed writes; %d sequences compared with the model in Coq, %d mismatches" % (fp_steps, len(fps), fp_writes, len(fcases), len(bad_w)))
     ctx.log("coq: %d rounds (%d model events) evaluated: %d transcript mismatches, %d footprint mismatches; %d ops outside the Coq repertoire" % (len(cases), nev, len(bad_model), len(bad_fp), skipped))
     cov = {
         "obligations": ctx.obligations, "discharged": ctx.discharged,
@@ -155,6 +235,7 @@ Definition f_ok (c : nat * list (nat * op) * list (list result)) : bool :=
         "distribution": dist, "children": [{k: v for k, v in c.items() if k != "report"} for c in children],
         "coq_rounds": len(cases), "coq_events": nev, "model_mismatches": len(bad_model), "footprint_mismatches": len(bad_fp),
         "races_reported": sum(c.get("races", 0) for c in children),
+        "footprint_steps": fp_steps, "footprint_observed_writes": fp_writes, "footprint_sequences_in_coq": len(fcases), "footprint_mismatches": len(bad_w),
     }
     return ctx.finish(LEVEL, cov, assumptions=[
         "Go memory model, sync.Once, sync/atomic and the race detector are trusted (runtime; not modelled)",
